@@ -215,6 +215,28 @@ pub fn run(prop: &'static str, tier: Tier) -> ! {
     }
     families.push(json!({"family": "B: multi-byte mains/lookaheads (é, €), ordered modes of 1..2 patterns", "index_space": n, "inputs": "{a,é,b,€}^<=3 (thorough 4)", "start_offsets": "all", "exhaustive": true}));
 
+    // Family E: lookaheads whose automata are not deterministic after the Thompson/closure
+    // construction (two transitions on one character from one state), whose first item may match
+    // nothing, and whose alternatives have different lengths (a shorter token can then have the
+    // larger extent)
+    {
+        let mains_e = ["a", "(a)+", "x", "[ab]"];
+        let las_e = ["ab|ax", "(a)*ab", "(a|ab)b", "(a){0,2}b", "(a){0}b", "(a){0,}x", "(a)?b", "abb|b", "b|bxx", "[ab]*x", "(a|b)*bb", "x|xa|xab"];
+        let fam_e = LaFamily { ps: pats_with_la(&mains_e, &las_e), max_pats: 2 };
+        let le = if tier == Tier::Quick { 4 } else { 5 };
+        let ins_e = inputs(&['a', 'b', 'x'], le);
+        let n = fam_e.len();
+        let accs = par_for(n, 16, || Acc { samples: Samples::new(1), ..Default::default() }, |acc, i| {
+            if let Some(cfg) = fam_e.get(i) {
+                run_cfg(acc, prop, &cfg, &ins_e, &tables, "E", true, "");
+            }
+        });
+        for a in accs {
+            merge(&mut total, a);
+        }
+        families.push(json!({"family": "E: ordered modes of 1..2 patterns from 4 mains x {no, positive, negative lookahead from 12 lookaheads with overlapping alternatives, leading repetitions with lower bound 0, alternatives of different lengths}", "index_space": n, "inputs": format!("{{a,b,x}}^<={le}"), "start_offsets": "all", "exhaustive": true}));
+    }
+
     // Family C (thorough): three patterns from a smaller menu
     if tier == Tier::Thorough {
         let mains_c = ["a", "ab", "(a)+", "[ab]", "b"];
